@@ -16,11 +16,12 @@ import itertools
 from sexp import Sym
 
 from props._slicing_util import canon_slice, compositions, enc_slice, random_chunks, slice_steps, slice_values, unsym
+from props import _c21x
 
 PROP = "C21"
 READY = True
 DRIVER = "dm_slicing"
-LEAN_MODULES = ["DaskModel.Props.C21", "DaskModel.Props.C20Cache"]
+LEAN_MODULES = ["DaskModel.Props.C21", "DaskModel.Props.C20Cache", "DaskModel.Props.C21x"]
 CASE_TIMEOUT_S = 30
 LEVEL_TEXT = (
     "Lean 4 theorems (no size bound) over transliterations of parse_assignment_indices (slice branch) and of "
@@ -708,6 +709,7 @@ def case_hist(ctx, inp):
 
 CASES = {"parse": case_parse, "plan": case_plan, "api": case_api, "mask": case_mask, "selfref": case_selfref,
          "chunkfn": case_chunkfn, "hist": case_hist}
+CASES.update(_c21x.CASES)      # extension round: maskplan, maskapi, vpieces
 
 
 # --------------------------------------------------------------------------------------
@@ -963,3 +965,4 @@ def generate(ctx):
         vshape = None if rng.random() < 0.75 else [sum(mask)]
         yield "mask", {"shape": shape, "chunks": chunks, "mask": mask, "dask_mask": dm, "vshape": vshape,
                        "mchunks": [list(random_chunks(rng, s)) for s in shape] if rng.random() < 0.5 else None}
+    yield from _c21x.generate(ctx)
